@@ -42,10 +42,28 @@ func verifExpired(g *verifGhost) bool {
 	return verifnd.Or(verifnd.And(!g.used, g.age > 10*time.Minute), g.age > 6*time.Hour)
 }
 
-// verifSetAge rewrites the registration time of g's timeout record (found the
-// way the code finds it) so that the registration is `age` old now.
+// verifTimeoutOf finds the timeout record that points at g's registration (by
+// the record's own fields, whatever the map is keyed by); when several records
+// point at it, the newest (the only one for which that can be decided by content
+// is the one just written) - records are compared by identity.
+func verifTimeoutOf(r *RegisteredDecoys, d *DecoyRegistration) *DecoyTimeout {
+	t, ok := r.transports[d.Transport]
+	if !ok {
+		return nil
+	}
+	id, ph := t.GetIdentifier(d), d.PhantomIp.String()
+	for _, to := range r.decoysTimeouts {
+		if to.identifier == id && to.decoy == ph {
+			return to
+		}
+	}
+	return nil
+}
+
+// verifSetAge rewrites the registration time of g's timeout record so that the
+// registration is `age` old now.
 func verifSetAge(r *RegisteredDecoys, g *verifGhost) {
-	if to, ok := r.decoysTimeouts[g.obj.IDString()+g.phantom.String()]; ok {
+	if to := verifTimeoutOf(r, g.obj); to != nil {
 		to.registrationTime = time.Now().Add(-g.age)
 	}
 }
